@@ -123,7 +123,7 @@ def flavour(name):
 
 
 def harness(name, flav, sources, extra_cflags=(), extra_ldflags=(), wraps=(), instrument=True,
-            outname=None):
+            outname=None, plain_sources=()):
     """Compile harness `name` from /verif/harness/<sources> against flavour `flav`.
 
     instrument=False compiles the harness sources without the sanitizer flags of
@@ -132,10 +132,11 @@ def harness(name, flav, sources, extra_cflags=(), extra_ldflags=(), wraps=(), in
     cflags, _, ldflags = FLAVOURS[flav]
     hdir = os.path.join(VERIF, "harness")
     srcs = [s if os.path.isabs(s) else os.path.join(hdir, s) for s in sources]
+    psrcs = [s if os.path.isabs(s) else os.path.join(hdir, s) for s in plain_sources]
     h = hashlib.sha256()
     h.update(open(os.path.join(os.path.dirname(lib), "stamp")).read().encode())
     h.update(repr((flav, list(extra_cflags), list(extra_ldflags), list(wraps), instrument)).encode())
-    deps = list(srcs) + [os.path.join(hdir, f) for f in sorted(os.listdir(hdir)) if f.endswith(".h")]
+    deps = list(srcs) + list(psrcs) + [os.path.join(hdir, f) for f in sorted(os.listdir(hdir)) if f.endswith(".h")]
     for s in deps:
         with open(s, "rb") as f:
             h.update(s.encode())
@@ -150,7 +151,12 @@ def harness(name, flav, sources, extra_cflags=(), extra_ldflags=(), wraps=(), in
         if os.path.exists(exe) and os.path.exists(exe + ".stamp") and open(exe + ".stamp").read() == key:
             return exe
         base = (cflags if instrument else ["-O1"])
-        cmd = (["gcc"] + COMMON + base + list(extra_cflags) + _incdirs() + ["-I", hdir] + srcs +
+        pobjs = []
+        for ps in psrcs:   # translation units that must stay invisible to the sanitizer (e.g. the scheduler)
+            po = exe + "." + os.path.basename(ps) + ".o"
+            _run(["gcc"] + COMMON + ["-O1"] + list(extra_cflags) + _incdirs() + ["-I", hdir, "-c", ps, "-o", po])
+            pobjs.append(po)
+        cmd = (["gcc"] + COMMON + base + list(extra_cflags) + _incdirs() + ["-I", hdir] + srcs + pobjs +
                [lib] + ldflags + ["-Wl,--wrap=%s" % w for w in wraps] + list(extra_ldflags) +
                ["-lpthread", "-lrt", "-ldl", "-lm", "-o", exe + ".tmp"])
         _run(cmd)
